@@ -238,9 +238,11 @@ class PathFacts:
         self.lin = Lin(it)
 
 
-def self_int_var(body, place):
-    """variable name when `place` is an integer field reached from `*self`"""
+def self_int_var(body, place, it=None, st=None):
+    """variable name when `place` is an integer field reached from `*self` (directly or through a `&mut` alias of a part of self)"""
     key = place_key(place)
+    if it is not None and st is not None:
+        key = it.norm_target(st, key)
     if key[:2] != SELF or len(key) < 3:
         return None
     if not re.match(r"[iu](8|16|32|64|size)$", place.get("ty", "")):
@@ -279,7 +281,7 @@ def path_counter_effects(fx, body, it, events, memo, depth, upto=None, snapshots
     eff = {}
     for e in events:
         if e.kind == "assign":
-            v = self_int_var(body, e.data["place"])
+            v = self_int_var(body, e.data["place"], it, e.state)
             if v is None:
                 continue
             rv = e.data["rv"]
@@ -372,11 +374,12 @@ def run(fx, chk, cg, tw):
     tables = run_length_tables(fx)
     chk.floor("R7", "run-length sample tables (entries with a sample_count field)", len(tables), 2)
     n6 = n7 = 0
+    undecided = []
     for fid in sorted(clo):
         fn = fx.fns[fid]
         body = body_of(fn)
-        if body is None:
-            continue
+        if body is None or fn["kind"] == "Closure":
+            continue          # a closure's effects belong to the function that runs it
         # which optional stbl tables does this function create?  (assignment to ...stbl.<field>)
         created = set()
         touched = set()
@@ -388,8 +391,12 @@ def run(fx, chk, cg, tw):
                         created.add(pr[-1]["f"])
                     if pr and isinstance(pr[-1], dict) and pr[-1].get("f") == "sample_count" and pr[-1].get("adt") in tables:
                         touched.add(pr[-1]["adt"])
-                    if s["rv"]["k"] == "agg" and s["rv"].get("adt") in tables:
-                        touched.add(s["rv"]["adt"])
+        for b, t in body.calls():
+            if strip_generics(t["callee"].get("path") or "") == "alloc::vec::Vec::push" and len(t["args"]) == 2:
+                pl_ = op_place(t["args"][1])
+                for eadt_ in tables:
+                    if pl_ is not None and (pl_["ty"] == eadt_ or pl_["ty"].endswith("::" + short(eadt_)) or pl_["ty"] == short(eadt_)):
+                        touched.add(eadt_)
         # creation through Option::get_or_insert_with / insert / get_or_insert / replace on the table field
         creating_calls = {}
         for b, t in body.calls():
@@ -479,7 +486,15 @@ def run(fx, chk, cg, tw):
                 created_here = optional and ent == "None" and stored
                 n7 += 1
                 verdict, why = judge(fx, lin, st, delta, created_here, fid, n_form)
+                if optional and any(b0 in blocks for b0 in creating_calls.get(fname, ())) and not verdict:
+                    # the table is created by Option::get_or_insert_with / insert: what the new table holds is built in a
+                    # closure or an argument expression this path analysis does not follow
+                    verdict, why = None, "table created through an Option combinator; its initial contents are not followed"
                 key = "%s|%s|path%d" % (fn_short(fid), fname, pi)
+                if verdict is None:
+                    undecided.append(key)
+                    chk.ok("R7", key, "not decided: " + why, site_of(fn))
+                    continue
                 chk.require(verdict, "R7", key, why, "%s: on one path stbl.%s %s" % (fn_short(fid), fname, why), site_of(fn))
         # ---- R7 on back-fill loops over per-sample vectors of self
         for L in LP_loops(fx, fid):
@@ -493,6 +508,7 @@ def run(fx, chk, cg, tw):
                 chk.require(ok, "R7", key, why, "%s: back-fill loop %s" % (fn_short(fid), why), site_of(fn, t.get("line")))
     chk.floor("R6", "lazily created optional tables", n6, 2)
     chk.floor("R7", "count-conservation obligations", n7, 8)
+    chk.analysed["R7_undecided_paths"] = undecided
 
 
 def LP_loops(fx, fid):
@@ -535,7 +551,7 @@ def n_range(lin, st, form_of):
 def judge(fx, lin, st, delta, created_here, fid, n_form):
     """is delta == 1 (existing table) / == n + 1 (table created on this path) for every n the path admits?"""
     if delta is None:
-        return False, "changes its sample total by an amount that is not a linear expression of the writer's counters"
+        return None, "changes its sample total by an amount the analysis cannot express as a linear form of the writer's counters"
     form = lambda v: n_form(v, fid, 0)
     a, b = 0, 0
     for v, c in delta.items():
@@ -544,6 +560,9 @@ def judge(fx, lin, st, delta, created_here, fid, n_form):
             continue
         f = form(v)
         if f is None:
+            if isinstance(v, tuple) and v and v[0] in ("sym", "param"):
+                # a value the analysis cannot trace to the writer's counters (result of a helper, a captured variable, ...)
+                return None, "adds %s samples: %s could not be related to the writer's counters" % (l_str(delta), l_str({v: 1}))
             return False, "adds %s samples: %s is not related to the number of samples written (no counter equation)" % (l_str(delta), l_str({v: 1}))
         a += c * f[0]
         b += c * f[1]
